@@ -33,8 +33,9 @@ CHECKS["C01"] = {
     "assumptions": ["hellos are generated well-formed by construction and additionally filtered by crypto/tls's parser", "go1.26.8 toolchain"],
     "units": [
         {"name": "c01", "pkg": "c01", "run": "^Test", "shards": 8},
+              {"name": "c01w", "pkg": ".", "overlay": "root", "run": "^TestVerifWiringC01$", "shards": 2},
     ],
-    "expect_checks": ["c01.pure", "c01.e2e"],
+    "expect_checks": ["c01.pure", "c01.e2e", "c01.wiring"],
 }
 
 CHECKS["C02"] = {
@@ -46,8 +47,9 @@ CHECKS["C02"] = {
     "assumptions": ["where the statement leaves the value open (ALPN whose last byte is non-ASCII) only invariance and shape are judged", "go1.26.8 toolchain"],
     "units": [
         {"name": "c02", "pkg": "c02", "run": "^Test", "shards": 8},
+              {"name": "c02w", "pkg": ".", "overlay": "root", "run": "^TestVerifWiringC02$", "shards": 2},
     ],
-    "expect_checks": ["c02.pure", "c02.e2e"],
+    "expect_checks": ["c02.pure", "c02.e2e", "c02.wiring"],
 }
 
 _E2E_NOTE = "Trusted: the in-memory rig (net.Pipe listener with TCP-like addresses, recording net/http backend, raw HTTP/1.1 writer and raw HTTP/2 peer built on x/net v0.19.0 framer+hpack), testing/synctest quiescence; the proxy object graph is built like fingerproxy.Run builds it (proxyserver.NewServer + reverseproxy.NewHTTPHandler + injectors)."
@@ -59,8 +61,9 @@ CHECKS["C05"] = {
     "level_text": "Generated-input search with a validity oracle at the backend (values under a configured name are a subset of {proxy-computed value}, at most one, never a client value; near-miss names pass through). Absence of counterexamples in ~2.5k (quick) / 60k (thorough) connections.",
     "level_note": _E2E_NOTE,
     "assumptions": ["attacker values are recognisable (prefix spoof-) and never collide with real fingerprints"],
-    "units": [{"name": "c05", "pkg": "c05", "run": "^Test", "shards": 8}],
-    "expect_checks": ["c05.spoof"],
+    "units": [{"name": "c05", "pkg": "c05", "run": "^Test", "shards": 8},
+              {"name": "c05w", "pkg": ".", "overlay": "root", "run": "^TestVerifWiringC05$", "shards": 2}],
+    "expect_checks": ["c05.spoof", "c05.wiring"],
 }
 
 CHECKS["C09"] = {
@@ -70,8 +73,9 @@ CHECKS["C09"] = {
     "level_text": "Generated-input search with an exact oracle (last X-Forwarded-For element = peer IP after the client's list in order, X-Forwarded-Host = Host addressed, X-Forwarded-Proto = https exactly once, no Forwarded, Host per PreserveHost).",
     "level_note": _E2E_NOTE,
     "assumptions": ["lists are compared after splitting on commas and trimming blanks, the form net/http joins them in"],
-    "units": [{"name": "c09", "pkg": "c09", "run": "^Test", "shards": 8}],
-    "expect_checks": ["c09.forwarding"],
+    "units": [{"name": "c09", "pkg": "c09", "run": "^Test", "shards": 8},
+              {"name": "c09w", "pkg": ".", "overlay": "root", "run": "^TestVerifWiringC09$", "shards": 2}],
+    "expect_checks": ["c09.forwarding", "c09.wiring"],
 }
 
 CHECKS["C15"] = {
@@ -105,8 +109,9 @@ CHECKS["C16"] = {
     "level_text": "Generated histories with an exact model: after every step the metric equals, per label set, the number of connections the proxy has ended so far (labels as the client observed them), never decreases, and at the end sums to the number of accepted connections.",
     "level_note": _E2E_NOTE + " 'Ended' is taken as 'the proxy closed its side of the connection' (see DESIGN §6); whether it closes in the right situations is C11's subject.",
     "assumptions": ["barrier mode: interleavings of whole steps, not of instructions"],
-    "units": [{"name": "c16", "pkg": "c16", "run": "^Test", "shards": 8}],
-    "expect_checks": ["c16.metric"],
+    "units": [{"name": "c16", "pkg": "c16", "run": "^Test", "shards": 8},
+              {"name": "c16w", "pkg": ".", "overlay": "root", "run": "^TestVerifWiringC16$", "shards": 2}],
+    "expect_checks": ["c16.metric", "c16.wiring"],
 }
 
 CHECKS["C11"] = {
